@@ -150,6 +150,10 @@ pub fn replay(path: &str) -> i32 {
                     }
                     0
                 }
+                Err(e) if e.starts_with("setup operation") => {
+                    println!("VIOLATION setup-failed: {}", e);
+                    0
+                }
                 Err(e) => {
                     eprintln!("machinery error: {}", e);
                     2
@@ -941,6 +945,17 @@ pub fn sched_explore_as(run: &Run, want: &[&str], scenarios: &[SchedScenario], b
                     }
                     // an out-of-range choice (no second action at the first choice point) is fine for [1]
                     (Err(_), Err(_)) if !prefix.is_empty() => {}
+                    // the set-up runs sequentially on a healthy backend: an operation of it that fails, panics or
+                    // blocks for ever is a finding about the code under test, not about the harness
+                    (Err(e), _) | (_, Err(e)) if e.starts_with("setup operation") => {
+                        viols.push(Violation {
+                            prop: want[0].to_string(),
+                            class: format!("setup-failed:{}|img={}", crate::seq::err_category(&e), sc.img.kind),
+                            detail: format!("a set-up operation (run alone, every request completing) did not return Ok: {} [{}]", e, sc.describe()),
+                            replay: sc.to_json(&[]),
+                        });
+                        return (sc.describe(), Ok(crate::sched::ExploreStats::default()), viols);
+                    }
                     (Err(e), _) | (_, Err(e)) => return (sc.describe(), Err(e), viols),
                 }
             }
